@@ -144,7 +144,19 @@ def decide_literals(t, depth=0):
         return t
     if t[0] == "proj":
         return norm(t)
+    if t[0] == "try" and len(t) == 2 and isinstance(t[1], tuple) and t[1][:2] in (("ctor", "Option::Some"), ("ctor", "Result::Ok")) and dict(t[1][2]).get("0") is not None:
+        return dict(t[1][2])["0"]       # `Some(x)?` is x
+    if t[0] == "fieldof" and len(t) == 3 and isinstance(t[1], tuple) and t[1][:1] == ("ctor",) and t[2] in dict(t[1][2]):
+        return dict(t[1][2])[t[2]]
     return t
+
+
+def early_exit(t):
+    """the value a function leaves with when a `?` inside the (decided) term meets a literal None / Err: that literal; else None"""
+    for x in sym.subterms(t):
+        if isinstance(x, tuple) and x[:1] == ("try",) and len(x) == 2 and isinstance(x[1], tuple) and x[1][:2] in (("ctor", "Option::None"), ("ctor", "Result::Err")):
+            return x[1]
+    return None
 
 
 def _is_cond(x):
